@@ -27,7 +27,7 @@ RULE = ("sampler {importance, minipcn, emcee, smc, emcee_smc, blackjax_smc} x pr
         "top-level sample_posterior(rng=), flow seed/key only} x seeds {0,1,VERIF_SEED}; each configuration is executed twice "
         "from scratch with numpy/python/torch global generators re-seeded differently and numpy.random.default_rng / the default "
         "orng.ArrayRNG patched to return differently seeded generators in the two runs (and logging their callers); a subset is "
-        "repeated in a fresh interpreter with a different PYTHONHASHSEED; plus pairs of runs that are handed the very same argument objects (a reused sampler_kwargs dictionary); plus the sample-set operations that take a generator (Samples.rejection_sample, SMCSamples.resample) x {numpy, torch, jax} x {float32, float64} x seeds, twice with differently seeded global sources; plus, per sampler x preconditioning, the run of a sampler object that has already completed a different run (other seed, size, options) against the run of a fresh object. non-trivial = run that consumes random numbers after the "
+        "repeated in a fresh interpreter with a different PYTHONHASHSEED; plus pairs of runs that are handed the very same argument objects (a reused sampler_kwargs dictionary); plus the sample-set operations that take a generator (Samples.rejection_sample, SMCSamples.resample) x {numpy, torch, jax} x {float32, float64} x seeds, twice with differently seeded global sources; plus a zuko proposal loaded from a file (ZukoFlow.load / Aspire.resume_from_file) and then sampled, in two sessions with other global seeds; plus, per sampler x preconditioning, the run of a sampler object that has already completed a different run (other seed, size, options) against the run of a fresh object. non-trivial = run that consumes random numbers after the "
         "initial draw (everything except pure importance sampling with an analytic proposal)")
 ASSUMPTIONS = [
     "stub kernels draw only from the generator object they are handed (minipcn) / from their own RandomState (emcee, like the real package)",
@@ -339,6 +339,64 @@ def run_reused_sampler(cfg):
     return r.dump()
 
 
+def run_loaded_flow(cfg):
+    """A proposal that comes from a file: load (ZukoFlow.load / Aspire.resume_from_file), then draw - twice, with differently
+    seeded global sources in the two sessions.  The flow's stored seed is the only explicit source."""
+    import shutil
+    import tempfile
+
+    import h5py
+    import torch
+    from aspire import Aspire
+    from aspire.flows import get_flow_wrapper
+    from aspire.samples import Samples
+    from env.targets import Monitor
+
+    route, seed = cfg["route"], cfg["seed"]
+    r = Report()
+    case = {"loaded_flow": True, "cfg": cfg}
+    r.case(explorer.digest(case), nontrivial=True)
+    p = rh.problem("none")
+    tmp = tempfile.mkdtemp(prefix="c20l_")
+    try:
+        path = os.path.join(tmp, "f.h5")
+        mon = Monitor(p["like"], p["prior"], "numpy", keep_points=False)
+        a = Aspire(log_likelihood=mon.log_likelihood, log_prior=mon.log_prior, dims=2, parameters=p["parameters"], prior_bounds=p["bounds"],
+                   xp=get_xp("numpy"), flow_backend="zuko", seed=seed, hidden_features=[8], transforms=1)
+        g = np.random.default_rng(seed + 5)
+        xs = np.stack([g.normal(1.0, 1.0, 64), g.normal(2.0, 1.2, 64)], axis=1)
+        a.fit(Samples(x=xs, parameters=p["parameters"], xp=get_xp("numpy")), n_epochs=1, batch_size=32, checkpoint_path=path)
+        outs = []
+        for salt in (1, 2):
+            np.random.seed(1000 + salt)
+            random.seed(2000 + salt)
+            torch.manual_seed(3000 + salt)
+            _ = torch.rand(salt)  # the ambient torch stream is at another position in the two sessions
+            mon2 = Monitor(p["like"], p["prior"], "numpy", keep_points=False)
+            if route == "resume_from_file":
+                b = Aspire.resume_from_file(path, log_likelihood=mon2.log_likelihood, log_prior=mon2.log_prior)
+                res = b.sample_posterior(n_samples=8, sampler="importance")
+                outs.append(digest_arrays([res.x, res.log_q, res.log_w, res.log_evidence]))
+            else:
+                F, _xp = get_flow_wrapper("zuko")
+                with h5py.File(path, "r") as f:
+                    fl = F.load(f, "flow")
+                x, lq = fl.sample_and_log_prob(8)
+                outs.append(digest_arrays([x, lq]))
+    except Exception as e:
+        from env import exc_site
+
+        r.violation(f"C20/loaded-flow/raises/{type(e).__name__}/{exc_site(e)}/{route}", repr(e)[:200], case)
+        return r.dump()
+    finally:
+        shutil.rmtree(tmp, ignore_errors=True)
+    r.outcomes.add(outs[0])
+    if outs[0] != outs[1]:
+        r.violation(f"C20/loaded-flow/not-reproducible/{route}", None, case)
+    r.sample(case)
+    return r.dump()
+
+
 def run_sample_ops(cfg):
     """The sample-set operations that take a generator (rejection_sample, SMCSamples.resample) in every namespace:
     twice with the same seeded generator and differently seeded global sources (numpy, python, torch)."""
@@ -436,6 +494,9 @@ def run(tier, seed, workers):
         for precond in ("none", "logit_affine") if tier == "quick" else ("none", "logit_affine", "periodic", "tight"):
             for sd in sorted({0, seed}):
                 jobs.append(("run_reused_sampler", {"sampler": sampler, "seed": sd, "precond": precond}))
+    for route in ("resume_from_file", "ZukoFlow.load"):
+        for sd in sorted({0, 1, seed}) if tier == "thorough" else (0, 1):
+            jobs.append(("run_loaded_flow", {"route": route, "seed": sd}))
     for op, ns, dt in itertools.product(("rejection", "resample"), ("numpy", "torch", "jax"), ("float64", "float32")):
         for sd in sorted({0, 1, seed}):
             if tier == "quick" and sd == 1:
@@ -453,6 +514,9 @@ def run(tier, seed, workers):
 
 def replay(case):
     r = Report()
+    if case.get("loaded_flow"):
+        r.merge(run_loaded_flow(case["cfg"]))
+        return r
     if case.get("reused_sampler"):
         r.merge(run_reused_sampler(case["cfg"]))
         return r
